@@ -9,4 +9,7 @@ def walk_consts(t):
             "(* cmd/decipher/main.go: const maxDepth *)\n"
             "Definition max_depth : Z := %d%%Z.\n"
             "(* cmd/decipher/main.go: var Version (default, no -ldflags) *)\n"
-            "Definition version : bytes := %s.\n" % (int(w["max_depth"]), bytes_lit(list(w["version"].encode("latin1")))))
+            "Definition version : bytes := %s.\n"
+            "(* internal/file/info.go: var MaxReadSize (the value of the running code) *)\n"
+            "Definition max_read_size : N := %d%%N.\n"
+            % (int(w["max_depth"]), bytes_lit(list(w["version"].encode("latin1"))), int(w["max_read_size"])))
